@@ -455,3 +455,125 @@ Proof.
       * simpl. unfold launch, bind in Hl. rewrite E in Hl. unfold bind. rewrite Hl, Hss. reflexivity.
       * constructor; [|assumption]. exists ma, p. repeat split; assumption.
 Qed.
+
+(* ================================================================ deferred staging of the agent configs *)
+(* reading a name yields v if every write to that name wrote v and either
+   there is such a write or v was there before *)
+Lemma latest_acc :
+  forall {V} (k : nat) (v : V) (l : list (nat * V)) (acc : option V),
+    (forall kv, In kv l -> fst kv = k -> snd kv = v) ->
+    ((exists kv, In kv l /\ fst kv = k) \/ acc = Some v) ->
+    fold_left (fun a kv => if Nat.eqb k (fst kv) then Some (snd kv) else a) l acc = Some v.
+Proof.
+  intros V k v l. induction l as [|[k' v'] l IH]; intros acc Hall Hex; simpl.
+  - destruct Hex as [[kv [[] _]]|Hacc]. assumption.
+  - apply IH.
+    + intros kv Hin. apply Hall. right; assumption.
+    + destruct (Nat.eqb k k') eqn:E.
+      * right. apply Nat.eqb_eq in E. subst k'. f_equal.
+        exact (Hall (k, v') (or_introl eq_refl) eq_refl).
+      * destruct Hex as [[kv [[Heq|Hin] Hk]]|Hacc].
+        -- subst kv. simpl in Hk. subst k'. rewrite Nat.eqb_refl in E. discriminate.
+        -- left. exists kv. split; assumption.
+        -- right. assumption.
+Qed.
+
+Lemma in_combine_seq :
+  forall {A} (l : list A) (a i : nat) (x : A),
+    In (i, x) (combine (seq a (List.length l)) l) <-> (a <= i)%nat /\ nth_error l (i - a) = Some x.
+Proof.
+  intros A l. induction l as [|y l IH]; intros a i x; simpl.
+  - split; [intros []|]. intros [_ H]. destruct (i - a)%nat; discriminate.
+  - split.
+    + intros [Heq|Hin].
+      * injection Heq as <- <-. split; [lia|]. replace (a - a)%nat with 0%nat by lia. reflexivity.
+      * apply IH in Hin. destruct Hin as [Hle Hn]. split; [lia|].
+        replace (i - a)%nat with (S (i - S a)) by lia. exact Hn.
+    + intros [Hle Hn]. destruct (Nat.eq_dec i a) as [->|Hne].
+      * left. replace (a - a)%nat with 0%nat in Hn by lia. simpl in Hn. injection Hn as ->. reflexivity.
+      * right. apply IH. split; [lia|].
+        replace (i - a)%nat with (S (i - S a)) in Hn by lia. exact Hn.
+Qed.
+
+Lemma in_enumerate :
+  forall {A} (l : list A) (i : nat) (x : A), In (i, x) (enumerate l) <-> nth_error l i = Some x.
+Proof.
+  intros A l i x. unfold enumerate. rewrite in_combine_seq.
+  replace (i - 0)%nat with i by lia. split; [intros [_ H]; exact H|intro H; split; [lia|exact H]].
+Qed.
+
+(* Whatever local file names are used, as long as no two pilots of the bulk
+   share one: the sandbox of pilot i receives the configuration prepared for
+   pilot i -- for a bulk of any length, whatever the other pilots are. *)
+Lemma staged_cfg_is_own_l :
+  forall (name : nat -> nat) (ss : list sized),
+    (forall i j, (i < List.length ss)%nat -> (j < List.length ss)%nat -> name i = name j -> i = j) ->
+    forall i s, nth_error ss i = Some s -> received name ss i = Some (told_of i s).
+Proof.
+  intros name ss Hinj i s Hi.
+  assert (Hlt : (i < List.length ss)%nat) by (apply nth_error_Some; congruence).
+  unfold received. replace (i <? List.length ss)%nat with true by (symmetry; apply Nat.ltb_lt; exact Hlt).
+  unfold latest, written. apply latest_acc.
+  - intros kv Hin Hk. apply in_map_iff in Hin. destruct Hin as [[j sj] [<- Hin]]. simpl in *.
+    apply in_enumerate in Hin.
+    assert (Hj : (j < List.length ss)%nat) by (apply nth_error_Some; congruence).
+    assert (j = i) by (apply Hinj; assumption). subst j. congruence.
+  - left. exists (name i, told_of i s). split; [|reflexivity].
+    apply in_map_iff. exists (i, s). split; [reflexivity|]. apply in_enumerate. exact Hi.
+Qed.
+
+Lemma nth_error_map_enumerate :
+  forall {A B} (f : nat * A -> B) (l : list A) (i : nat) (y : B),
+    nth_error (map f (enumerate l)) i = Some y -> exists x, nth_error l i = Some x /\ y = f (i, x).
+Proof.
+  intros A B f l. unfold enumerate.
+  assert (G : forall a i y, nth_error (map f (combine (seq a (List.length l)) l)) i = Some y ->
+                            exists x, nth_error l i = Some x /\ y = f ((a + i)%nat, x)).
+  { induction l as [|x l IH]; intros a i y H; simpl in H.
+    - destruct i; discriminate.
+    - destruct i as [|i]; simpl in H.
+      + injection H as <-. exists x. split; [reflexivity|]. f_equal. f_equal. lia.
+      + destruct (IH (S a) i y H) as [x' [Hx ->]]. exists x'. split; [exact Hx|]. f_equal. f_equal. lia. }
+  intros i y H. destruct (G 0%nat i y H) as [x [Hx ->]]. exists x. split; [exact Hx|reflexivity].
+Qed.
+
+(* a bulk of any length, any tables: pilot i's job figures are those of `launch`
+   on its request alone, and the agent configuration that arrives in its sandbox
+   is the one built from exactly those figures for pilot i *)
+Lemma bulk_agent_receives_own_l :
+  forall Tb site rname schema qs rs i s t,
+    launch_bulk_staged Tb site rname schema qs = inr rs ->
+    nth_error rs i = Some (s, t) ->
+    exists q, nth_error qs i = Some q /\ launch Tb site rname schema q = inr s /\
+              t = Some (told_of i s).
+Proof.
+  intros Tb site rname schema qs rs i s t H Hi. unfold launch_bulk_staged, bind in H.
+  destruct (launch_bulk Tb site rname schema qs) as [|ss] eqn:Eb; [discriminate|].
+  injection H as <-.
+  destruct (nth_error_map_enumerate _ _ _ _ Hi) as [s' [Hs' Heq]]. simpl in Heq.
+  injection Heq as <- ->.
+  pose proof (bulk_pilot_by_pilot_l _ _ _ _ _ _ Eb) as HF.
+  assert (Hq : exists q, nth_error qs i = Some q /\ launch Tb site rname schema q = inr s).
+  { clear Eb Hi. revert i Hs'. induction HF as [|q s0 qs' ss' Hl _ IH]; intros i Hs'.
+    - destruct i; discriminate.
+    - destruct i as [|i]; simpl in *.
+      + injection Hs' as ->. exists q. split; [reflexivity|exact Hl].
+      + apply IH. exact Hs'. }
+  destruct Hq as [q [Hq Hl]]. exists q. repeat split; try assumption.
+  apply staged_cfg_is_own_l; [|exact Hs'].
+  intros a b _ _ Hab. exact Hab.
+Qed.
+
+(* ... hence the agent reads what its job requests *)
+Lemma bulk_agent_told_job_l :
+  forall Tb site rname schema qs rs i s t,
+    launch_bulk_staged Tb site rname schema qs = inr rs ->
+    nth_error rs i = Some (s, t) ->
+    ok_staged_own i t = true /\ ok_told_job s t = true.
+Proof.
+  intros Tb site rname schema qs rs i s t H Hi.
+  destruct (bulk_agent_receives_own_l _ _ _ _ _ _ _ _ _ H Hi) as [q [Hq [Hl ->]]].
+  destruct (launch_inv _ _ _ _ _ _ Hl) as [p [_ Hsz]].
+  destruct (size_pilot_inv _ _ _ _ _ _ Hsz) as [rn [_ ->]].
+  unfold ok_staged_own, ok_told_job, told_of. simpl. split; lia.
+Qed.
